@@ -504,6 +504,12 @@ def oracles_ubx(line, real_out):
         ok = occ is None and data(real_t) == data(exp_t) and marks(real_t) == marks(exp_t)
         recs.append({'prop': 'C03', 'ok': ok, 'expected': exp[:400], 'observed': (occ or real_out)[:400],
                      'what': 'only checksum-valid occurrences are delivered; one error marker per bad frame; a long header hides nothing'})
+    elif ft['restart'] and not ft['empty']:
+        # restart() in the history: what is delivered afterwards are checksum-valid frames of the input that FOLLOWED it (the reference
+        # scans the stretches between restarts separately) - nothing made of bytes from before
+        ok = data(real_t) == data(exp_t) and marks(real_t) == marks(exp_t)
+        recs.append({'prop': 'C03', 'ok': ok, 'expected': exp[:400], 'observed': real_out[:400],
+                     'what': 'only checksum-valid occurrences are delivered, also after restart(): nothing dropped by it becomes part of a later packet'})
     if ft['restart'] or ft['chunks'] > 1:
         recs.append({'prop': 'C09', 'ok': real_out == exp, 'expected': exp[:400], 'observed': real_out[:400],
                      'what': 'chunking is irrelevant; after restart() the parser treats further input like a new parser, queue and counter kept'})
@@ -646,6 +652,31 @@ def grammar_stream(rng, allow_long=False):
     return bytes(out)
 
 
+def summed_over_more(rng):
+    """an abandoned start of a frame (sync pair, then part of a header or of a payload, or a header that announces too much) followed by a
+    frame whose checksum bytes are the sums over the ABANDONED bytes and its own - so it is no well-formed frame; a parser that lets
+    anything of the abandoned start into the next frame's sums takes it for one.  Returns (abandoned start, the frame)."""
+    kind = rng.random()
+    if kind < 0.2:
+        stale = bytes([rng.choice([5, 6, 1]), rng.randrange(256), rng.randrange(1, 60)][:rng.randrange(1, 4)])      # cut short inside the header
+        start = b'\xb5\x62' + stale
+    elif kind < 0.4:
+        n = rng.randrange(2, 40)                                                           # cut short inside the payload
+        stale = bytes([rng.choice([5, 6, 1]), rng.randrange(256), n, 0]) + bytes(rng.randrange(256) for _ in range(rng.randrange(0, n)))
+        start = b'\xb5\x62' + stale
+    elif kind < 0.7:
+        stale = bytes([rng.choice([5, 6, 1]), rng.randrange(256), rng.randrange(256), rng.choice([4, 0xb5, 0xb5, 0xff])])    # length > 1000
+        start = b'\xb5\x62' + stale
+    else:
+        stale = bytes([rng.choice([5, 6]), 1, 2, 0, 6, 8])                               # a whole payload, checksum bytes missing
+        start = b'\xb5\x62' + stale
+    c, i = pick_cid(rng)
+    pl = rand_payload(rng, rng.choice([0, 2, 2, 5]))
+    body = bytes([c, i, len(pl) & 0xFF, len(pl) >> 8]) + pl
+    a, b = fletcher(stale + body)
+    return start, b'\xb5\x62' + body + bytes([a, b])
+
+
 def wild_stream(rng):
     out = bytearray()
     for _ in range(rng.randrange(1, 6)):
@@ -654,6 +685,12 @@ def wild_stream(rng):
             out += bytes(rng.choice([0xb5, 0x62, 0, 0x24]) for _ in range(rng.randrange(0, 5)))
         elif k < 0.35:
             out += nmea_sentence(b'GPRMC,1') + b'\r\n'
+        if rng.random() < 0.1:
+            start, bad = summed_over_more(rng)
+            if start[-1] == 0xb5 and rng.random() < 0.5:
+                bad = bad[1:]                      # the last abandoned byte doubles as the first sync byte
+            out += start + bad
+            continue
         c, i = pick_cid(rng)
         f = bytearray(frame(c, i, rand_payload(rng, rand_len(rng))))
         r = rng.random()
@@ -827,6 +864,10 @@ def gen_ubx1(rng, n, profile):
         if prof in ('grammar', 'wild'):
             name, chunks = rng.choice(list(chunkings(rng, stream)))
             yield 'ubx|' + ';'.join(first + ['P' + c.hex() for c in chunks] + ['D'])
+            if prof == 'wild' and rng.random() < 0.12:
+                # restart() in the middle of a frame, then a frame whose checksum bytes are summed over what was dropped as well
+                start, bad = summed_over_more(rng)
+                yield 'ubx|' + ';'.join(first + ['P' + start.hex(), 'R', 'P' + (bad + frame(*pick_cid(rng), rand_payload(rng, 2))).hex(), 'D'])
         elif prof == 'chunks':
             if rng.random() < 0.5:
                 for name, chunks in chunkings(rng, stream):
@@ -834,6 +875,11 @@ def gen_ubx1(rng, n, profile):
             else:                       # restart at a byte position
                 cut = rng.randrange(0, len(stream) + 1)
                 yield 'ubx|' + ';'.join(first + ['P' + stream[:cut].hex(), 'R', 'P' + stream[cut:].hex(), 'D'])
+                if rng.random() < 0.3:
+                    # restart() in the middle of a frame, then a frame whose checksum bytes are summed over what was dropped as well
+                    start, bad = summed_over_more(rng)
+                    yield 'ubx|' + ';'.join(first + ['P' + (stream[:cut] if rng.random() < 0.5 else b'').hex(), 'P' + start.hex(), 'R',
+                                                     'P' + (bad + frame(*pick_cid(rng), rand_payload(rng, 2))).hex(), 'D'])
         else:
             name, chunks = rng.choice(list(chunkings(rng, stream))[2:])
             ops = list(first)
